@@ -16,11 +16,21 @@ CLAIMED = {
             "Generated-input search over code descriptions (every histogram header form, integer configs, clusterings, LZ77 parameters) and symbol sequences; the decoder must return exactly the encoded sequence, consume exactly the written bits and accept the final ANS state; wrong final states and cluster holes must be rejected.",
             "Trusted: jxlref::entropy (encoder written from ISO/IEC 18181-1 Annex C / RFC 7932). A mistake shared by my encoder and the decoder would go unnoticed; the alias table, hybrid-integer and LZ77 distance maps are written from the definition, not from the decoder's code.",
             "DESIGN.md §4 C04"),
+    "C09": ("exploration",
+            "metamorphic PBT: generated valid files x generated chunkings (structure-boundary biased) fed through the incremental API vs whole-buffer read; field-wise and sample-wise equality",
+            "Generated-input search over valid files (bare/container, split jxlp, aux boxes, multi-section frames, permuted TOCs) and over chunkings biased to structure boundaries; the incremental decoder must report exactly what the one-shot decoder reports, including bit-identical samples.",
+            "Trusted: the feeding driver implements the documented contract (unconsumed bytes re-offered); files come from the jxlref generators (currently single-frame Modular images; multi-frame/VarDCT corpora are added as their writers land).",
+            "DESIGN.md §4 C09"),
     "C10": ("exploration",
             "model-based PBT: generated box layouts x chunkings vs expected event list (proptest over choice sequences, shrinking)",
             "Generated-input search: box layouts (all size forms, jxlc/jxlp splits, raw and brob aux boxes, ten ill-formed constructions) and chunkings are generated; the parser's event stream must equal an independently written model and ill-formed layouts must be rejected for every feed pattern. Exploration is the right level: the property quantifies over unbounded layouts/chunkings and the oracle is exact.",
             "Trusted: the model of the container grammar in jxlref::container (written from ISO/IEC 18181-2), stored-block Brotli writer. brob decompression of compressed meta-blocks is delegated to brotli-decompressor.",
             "DESIGN.md §4 C10"),
+    "C12": ("exploration",
+            "differential PBT: generated depth<=12 Modular streams that truthfully declare 16-bit buffers, decoded with narrow (SIMD) vs forced-wide (scalar) buffers, and against the original",
+            "Generated-input search over Modular streams whose every stored and intermediate value fits 16 bits by construction; narrow-buffer decode (AVX2 kernels on this host) must equal forced-wide decode sample for sample, and both must equal the original image.",
+            "Trusted: the encoder's range simulation defines 'truthful'; inverse-transform intermediates (squeeze tendency terms, RCT sums) are included after a counter-example showed the decoder evaluates them in 16-bit lanes (see DESIGN §7).",
+            "DESIGN.md §4 C12"),
     "C14": ("exploration",
             "round-trip PBT: independent header writer with generated field values and generated (non-canonical) encodings -> Bundle::parse, field-wise equality + exact bit position",
             "Generated-input search over the conditional layout of ImageHeader / FrameHeader / TOC: every field combination the generator can express is written by an independent writer (any legal U32 selector, any U64 form incl. 64-bit tail, arbitrary finite F16 patterns, all_default/div8/ratio shortcuts chosen at random) and the decoder must report exactly the written values and stop at exactly the written bit.",
